@@ -223,6 +223,13 @@ func New(config ...Config) fiber.Handler {
 
 		// Remove oldest to make room for new
 		if cfg.MaxBytes > 0 {
+			// The key may hold an entry already - the one a no-cache request passed by, or one that another request
+			// stored while this one was at the origin. It is replaced: its record and its bytes go first, or they
+			// would be counted for ever (and the entry of the key evicted one day in place of the record).
+			if old := manager.get(key); old != nil && old.exp != 0 {
+				_, size := heap.remove(old.heapidx, key)
+				storedBytes -= size
+			}
 			for storedBytes+bodySize > cfg.MaxBytes {
 				key, size := heap.removeFirst()
 				deleteKey(key)
